@@ -241,7 +241,10 @@ PLANS["C12"] = {
         # direct-API functions x every NULL / over-limit argument (second half of the statement), also under ASan+UBSan
         {"engine": "abi", "args": [], "cases": 32 if tier == "quick" else 400, "shards": N, "timeout": 3000},
         {"engine": "abi", "args": [], "cases": 8 if tier == "quick" else 64, "shards": N, "flavour": "asan", "env": ASAN_ENV,
-         "timeout": 3000}],
+         "timeout": 3000},
+        # "misuse of the burst calls": the burst misuse scripts of the ring engine (too many jobs, NULL array, NULL job,
+        # too little queue space, out-of-order slots, stale suite id, invalid job inside a burst)
+        {"engine": "ring", "args": [], "cases": 1500 if tier == "quick" else 60000, "shards": N, "timeout": 3000}],
     "cov_class": ["C12", "abi_null_code", "abi_limit_code"],
     "exhaustive": True,
     "rule": ("fault enumeration: for every suite (cipher, hash, AEAD tables; 3 lengths x 2 directions) and 19 "
